@@ -30,18 +30,19 @@ func exclusionUnits() []unit {
 	}
 	var cfgs []cfg
 	if !ev.Thorough() {
-		cfgs = []cfg{{"remove", 2, fullAlphabet, 1}, {"remove", 3, redAlphabet, 3}, {"alert", 2, fullAlphabet, 1}, {"alert", 3, minAlphabet, 1}}
-		R.Sec("exclusion/remove").Bounds["peers"] = "2 (full alphabet), 3 (" + alphRed + ")"
-		R.Sec("exclusion/alert").Bounds["peers"] = "2 (full alphabet), 3 (" + alphMin + ")"
+		cfgs = []cfg{{"remove", 1, fullAlphabet, 1}, {"remove", 2, fullAlphabet, 1}, {"remove", 3, fullAlphabet, 1}, {"remove", 4, minAlphabet, 1},
+			{"alert", 1, fullAlphabet, 1}, {"alert", 2, fullAlphabet, 1}, {"alert", 3, fullAlphabet, 1}}
+		R.Sec("exclusion/remove").Bounds["peers"] = "1..3 (full alphabet), 4 (" + alphMin + ")"
+		R.Sec("exclusion/alert").Bounds["peers"] = "1..3 (full alphabet)"
 	} else {
-		cfgs = []cfg{{"remove", 2, fullAlphabet, 1}, {"remove", 3, fullAlphabet, 2}, {"remove", 4, redAlphabet, 12},
-			{"alert", 2, fullAlphabet, 1}, {"alert", 3, fullAlphabet, 2}, {"alert", 4, minAlphabet, 4}}
-		R.Sec("exclusion/remove").Bounds["peers"] = "2,3 (full alphabet), 4 (" + alphRed + ")"
-		R.Sec("exclusion/alert").Bounds["peers"] = "2,3 (full alphabet), 4 (" + alphMin + ")"
+		cfgs = []cfg{{"remove", 1, fullAlphabet, 1}, {"remove", 2, fullAlphabet, 1}, {"remove", 3, fullAlphabet, 1}, {"remove", 4, fullAlphabet, 4}, {"remove", 5, minAlphabet, 4},
+			{"alert", 1, fullAlphabet, 1}, {"alert", 2, fullAlphabet, 1}, {"alert", 3, fullAlphabet, 1}, {"alert", 4, fullAlphabet, 4}}
+		R.Sec("exclusion/remove").Bounds["peers"] = "1..4 (full alphabet), 5 (" + alphMin + ")"
+		R.Sec("exclusion/alert").Bounds["peers"] = "1..4 (full alphabet)"
 	}
 	for _, e := range []string{"remove", "alert"} {
 		s := R.Sec("exclusion/" + e)
-		s.Bounds["stored_pin"] = "factors in (1,1),(1,2),(2,2),(2,3),(3,3); holders: every subset with min<=|cur|<=max; user allocations: every ordered subset of size <= 2"
+		s.Bounds["stored_pin"] = "factors in (1,1),(1,2),(2,2),(2,3),(3,3); holders: every subset with min<=|cur|<=max; no priority list (the pinset does not persist user allocations - api.Pin.ProtoMarshal drops them - so re-pinning paths never have one)"
 		s.Bounds["excluded_peer"] = "every current holder (exclusion lists of exactly one peer: the only shape the code can produce)"
 		s.Bounds["observed_at"] = "LogPin calls reaching the recording consensus and the stored pin"
 	}
@@ -62,12 +63,10 @@ func exclusionUnits() []unit {
 							for _, pr := range positivePairs {
 								for _, cur := range consistentCurs(cf.n, pr) {
 									for _, x := range cur {
-										for _, prio := range prioLists(cf.n) {
-											c := Case{N: cf.n, St: st, Cur: cur, Existing: "alloc", Prio: prio, Min: pr.mn, Max: pr.mx,
-												DefMin: -1, DefMax: -1, Alloc: alloc, Entry: cf.entry, Excluded: x}
-											o := r.evaluate(sec, c)
-											maybeSample(sec, 3001, r, c, o, defaultNonNum)
-										}
+										c := Case{N: cf.n, St: st, Cur: cur, Existing: "alloc", Prio: []int{}, Min: pr.mn, Max: pr.mx,
+											DefMin: -1, DefMax: -1, Alloc: alloc, Entry: cf.entry, Excluded: x}
+										o := r.evaluate(sec, c)
+										maybeSample(sec, 1009, r, c, o, defaultNonNum)
 									}
 								}
 							}
@@ -131,22 +130,25 @@ func shortcutUnits() []unit {
 func defaultsUnits() []unit {
 	defaults := []pair{{1, 1}, {1, 2}, {2, 3}, {3, 3}}
 	zeroPairs := []pair{{0, 0}, {0, 2}, {2, 0}, {0, 3}, {1, 2}, {-1, -1}}
+	if !ev.Thorough() {
+		zeroPairs = []pair{{0, 0}, {0, 2}, {2, 0}, {1, 2}}
+	}
 	type cfg struct {
 		n        int
 		alphabet []int
 	}
-	cfgs := []cfg{{2, fullAlphabet}, {3, minAlphabet}}
+	cfgs := []cfg{{2, fullAlphabet}, {3, tinyAlphabet}}
 	if ev.Thorough() {
 		cfgs = []cfg{{2, fullAlphabet}, {3, fullAlphabet}, {4, tinyAlphabet}}
 	}
 	for _, e := range []string{"pin", "block"} {
 		s := R.Sec("defaults/" + e)
 		s.Bounds["cluster_defaults"] = "(1,1),(1,2),(2,3),(3,3)  [(-1,-1) is the default of every other section]"
-		s.Bounds["requested_factors"] = "(0,0),(0,2),(2,0),(0,3) resolved against the defaults, plus explicit (1,2) and (-1,-1)"
+		s.Bounds["requested_factors"] = "(0,0),(0,2),(2,0) resolved against the defaults, plus explicit (1,2); thorough adds (0,3) and (-1,-1)"
 		if ev.Thorough() {
 			s.Bounds["peers"] = "2,3 (full alphabet), 4 (" + alphTiny + ")"
 		} else {
-			s.Bounds["peers"] = "2 (full alphabet), 3 (" + alphMin + ")"
+			s.Bounds["peers"] = "2 (full alphabet), 3 (" + alphTiny + ")"
 		}
 	}
 	var units []unit
@@ -205,9 +207,13 @@ var nonNumVariants = []string{"", "-1", "1.5", "1e3", "18446744073709551616", " 
 func nonNumUnits() []unit {
 	s := R.Sec("non-numeric-values")
 	s.Bounds["values"] = nonNumVariants
-	s.Bounds["peers"] = "1..3, alphabet " + alphMin
+	maxN := 2
+	if ev.Thorough() {
+		maxN = 3
+	}
+	s.Bounds["peers"] = fmt.Sprintf("1..%d, alphabet %s, vectors with at least one non-numeric peer", maxN, alphMin)
 	var units []unit
-	for n := 1; n <= 3; n++ {
+	for n := 1; n <= maxN; n++ {
 		n := n
 		for _, alloc := range []string{"ascend", "descend"} {
 			alloc := alloc
@@ -341,7 +347,7 @@ func independence(t *testing.T) {
 			body: func(r *rig) {
 				r.setMetrics(s.c.N, s.c.St, s.nn)
 				o := r.run(s.c)
-				report("independence", s.c, o)
+				r.report("independence", s.c, o)
 				if !sameObs(s.c, s.o, o) {
 					R.Broken("case gives different observations on a shared peer and on a fresh peer: %s: shared %s fresh %s", s.c, ev.JSON(s.o), ev.JSON(o))
 				}
